@@ -191,14 +191,14 @@ Theorem C04_swapped_sound : forall b n0 n1,
   In (n0, n1) (swaps_of_block b) ->
   exists ss l rng pre v1 e1 v2 e2 post, b = Block ss l rng /\
     stmts_list ss = pre ++ assign1 v1 e1 :: assign1 v2 e2 :: post /\
-    n0 = vtext v1 /\ n1 = etext e1 /\ etext e2 = vtext v1 /\ vtext v2 = etext e1.
+    n0 = text (tx_var v1) /\ n1 = text (tx_expr e1) /\ tx_expr e2 = tx_var v1 /\ tx_var v2 = tx_expr e1.
 Proof. exact swapped_sound. Qed.
 Print Assumptions C04_swapped_sound.
 
 Theorem C04_swapped_canonical : forall chunk ss l rng pre v1 e1 v2 e2 post,
   In (Block ss l rng) (all_blocks chunk) ->
   stmts_list ss = pre ++ assign1 v1 e1 :: assign1 v2 e2 :: post ->
-  se_var v1 = false -> se_var v2 = false -> etext e2 = vtext v1 -> vtext v2 = etext e1 ->
+  se_var v1 = false -> se_var v2 = false -> tx_expr e2 = tx_var v1 -> tx_var v2 = tx_expr e1 ->
   (1 <= n_swapped (same_lint_counts chunk))%nat.
 Proof. exact swapped_canonical. Qed.
 Print Assumptions C04_swapped_canonical.
